@@ -338,17 +338,107 @@ fn xf_strategy() -> BoxedStrategy<XfCase> {
         .boxed()
 }
 
+
+// ---------------------------------------------------------------------------
+// finish(): the ops in call order, nothing added, nothing dropped
+
+#[derive(Clone, Debug, Serialize, Deserialize)]
+pub struct OpsCase {
+    pub ops: Vec<POp>,
+}
+
+pub fn check_ops(c: &OpsCase) -> CheckResult {
+    let mut pb = PathBuilder::new();
+    for op in &c.ops {
+        match *op {
+            POp::M(x, y) => pb.move_to(x, y),
+            POp::L(x, y) => pb.line_to(x, y),
+            POp::Q(a, b, x, y) => pb.quad_to(a, b, x, y),
+            POp::C(a, b, cc, d, x, y) => pb.cubic_to(a, b, cc, d, x, y),
+            POp::Z => pb.close(),
+        }
+    }
+    let p = pb.finish();
+    if p.winding != Winding::NonZero {
+        return Err("finish() winding is not NonZero".into());
+    }
+    let same = |a: &PathOp, b: &POp| match (a, b) {
+        (PathOp::MoveTo(p), POp::M(x, y)) | (PathOp::LineTo(p), POp::L(x, y)) => same_pt(*p, *x, *y),
+        (PathOp::QuadTo(c1, p), POp::Q(a, b, x, y)) => same_pt(*c1, *a, *b) && same_pt(*p, *x, *y),
+        (PathOp::CubicTo(c1, c2, p), POp::C(a, b, cc, d, x, y)) => same_pt(*c1, *a, *b) && same_pt(*c2, *cc, *d) && same_pt(*p, *x, *y),
+        (PathOp::Close, POp::Z) => true,
+        _ => false,
+    };
+    if p.ops.len() != c.ops.len() || !p.ops.iter().zip(&c.ops).all(|(a, b)| same(a, b)) {
+        return Err(format!("finish() returned {:?} for the calls {:?} (the ops in call order, nothing added or dropped)", p.ops, c.ops));
+    }
+    let mut o = Outcome::new();
+    o.fp = fp_of(c);
+    o.judged = c.ops.len() as u64;
+    o.nontrivial = c.ops.len() >= 2;
+    // an open subpath that ends exactly where it began
+    let mut start: Option<(f32, f32)> = None;
+    let mut back = false;
+    for (i, op) in c.ops.iter().enumerate() {
+        match *op {
+            POp::M(x, y) => start = Some((x, y)),
+            POp::L(x, y) | POp::Q(_, _, x, y) | POp::C(_, _, _, _, x, y) => {
+                let last_of_subpath = !matches!(c.ops.get(i + 1), Some(POp::L(..) | POp::Q(..) | POp::C(..) | POp::Z));
+                back |= last_of_subpath && start == Some((x, y));
+            }
+            POp::Z => {}
+        }
+    }
+    o.class_if(back, "open-subpath-ending-exactly-on-its-start");
+    o.class_if(c.ops.is_empty(), "no-calls");
+    Ok(o)
+}
+
+fn ops_strategy() -> BoxedStrategy<OpsCase> {
+    let op = (finite_f32(), finite_f32(), finite_f32(), finite_f32(), finite_f32(), finite_f32(), 0u8..8).prop_map(|(x, y, a, b, cc, d, m)| match m {
+        0 | 1 => POp::M(x, y),
+        2 | 3 | 4 => POp::L(x, y),
+        5 => POp::Q(a, b, x, y),
+        6 => POp::C(a, b, cc, d, x, y),
+        _ => POp::Z,
+    });
+    (prop::collection::vec(op, 0..=8), any::<u8>())
+        .prop_map(|(mut ops, sel)| {
+            // coincidence: in a third of the cases the last drawing op of some subpath lands exactly on its MoveTo
+            if sel % 3 == 0 {
+                let mut start: Option<(f32, f32)> = None;
+                let n = ops.len();
+                for i in 0..n {
+                    let next_draws = matches!(ops.get(i + 1), Some(POp::L(..) | POp::Q(..) | POp::C(..)));
+                    match &mut ops[i] {
+                        POp::M(x, y) => start = Some((*x, *y)),
+                        POp::L(x, y) | POp::Q(_, _, x, y) | POp::C(_, _, _, _, x, y) => {
+                            if let (Some(s), false) = (start, next_draws) {
+                                *x = s.0;
+                                *y = s.1;
+                            }
+                        }
+                        POp::Z => {}
+                    }
+                }
+            }
+            OpsCase { ops }
+        })
+        .boxed()
+}
+
 pub fn property(_ctx: &Ctx) -> Property {
     Property {
         id: "C20",
-        rule: "part rect: finite x,y,w,h (random, integers, +-0, tiny, +-3999, +-1e6; negative and zero sizes), optionally after other ops; oracle = the exact five ops with f32 sums. part arc: centre +-100, r in {0, 1e-3, 0.5..200}, start in +-4pi, sweep in +-6pi plus 0/+-2pi/multiples of pi/4/tiny/huge (1e6..f32::MAX, either sign), with or without a current point, after 0-4 earlier builder calls (move_to, line_to, curves, close, rect) whose ops must come back unchanged and after which the arc still begins with a LineTo; oracle = f64 evaluation of the returned ops (leading LineTo to the start point, only QuadTo after, every sampled point at distance r within 0.5%, polar angle monotone in the sweep direction, total angle = clamp(sweep,+-2pi), end point). part transform: random op lists (all op kinds, any order) x all transform classes incl. singular and mirrored; oracle = same op kinds in order, every point = T*p in f64 within 4 ulp, winding kept, finish() preserves call order. Non-trivial: arc with |sweep|>pi/4 or negative sweep; rect with w != h and negative size or non-zero origin; non-identity transform on >=2 ops; distinct by hash of the case.",
+        rule: "part ops: 0-8 builder calls of every kind in any order (a third of the cases with a subpath whose last drawing op lands exactly on its move_to, left open); finish() must return exactly those ops, in call order, bit for bit, with NonZero winding. part rect: finite x,y,w,h (random, integers, +-0, tiny, +-3999, +-1e6; negative and zero sizes), optionally after other ops; oracle = the exact five ops with f32 sums. part arc: centre +-100, r in {0, 1e-3, 0.5..200}, start in +-4pi, sweep in +-6pi plus 0/+-2pi/multiples of pi/4/tiny/huge (1e6..f32::MAX, either sign), with or without a current point, after 0-4 earlier builder calls (move_to, line_to, curves, close, rect) whose ops must come back unchanged and after which the arc still begins with a LineTo; oracle = f64 evaluation of the returned ops (leading LineTo to the start point, only QuadTo after, every sampled point at distance r within 0.5%, polar angle monotone in the sweep direction, total angle = clamp(sweep,+-2pi), end point). part transform: random op lists (all op kinds, any order) x all transform classes incl. singular and mirrored; oracle = same op kinds in order, every point = T*p in f64 within 4 ulp, winding kept, finish() preserves call order. Non-trivial: arc with |sweep|>pi/4 or negative sweep; rect with w != h and negative size or non-zero origin; non-identity transform on >=2 ops; distinct by hash of the case.",
         assumptions: vec!["f32 noise floor of 4e-6*(|centre|+r+1) added to the 0.5% radius tolerance; angle checks skipped when r is below 1000x that floor"],
         parts: vec![
             part_outside_c07("rect", 50_000, 800_000, rect_strategy, check_rect),
             part("arc", 120_000, 2_500_000, arc_strategy, check_arc),
             part_outside_c07("transform", 50_000, 800_000, xf_strategy, check_xf),
+            part_outside_c07("ops", 40_000, 600_000, ops_strategy, check_ops),
         ],
-        min_class_fraction: vec![("arc", "negative-sweep", 0.3), ("arc", "beyond-full-turn", 0.1), ("arc", "multi-quad", 0.5), ("arc", "arc-directly-after-close", 0.05), ("rect", "negative-size", 0.2), ("rect", "rect-begins-at-the-current-point-of-an-open-subpath", 0.1), ("transform", "xf:unit-diagonal-shear", 0.01)],
+        min_class_fraction: vec![("arc", "negative-sweep", 0.3), ("arc", "beyond-full-turn", 0.1), ("arc", "multi-quad", 0.5), ("arc", "arc-directly-after-close", 0.05), ("rect", "negative-size", 0.2), ("ops", "open-subpath-ending-exactly-on-its-start", 0.1), ("rect", "rect-begins-at-the-current-point-of-an-open-subpath", 0.1), ("transform", "xf:unit-diagonal-shear", 0.01)],
         panic_is_violation: false,
     }
 }
